@@ -1,21 +1,439 @@
-//! Monitor for property C09 (see /verif/DESIGN.md §6).
+//! Monitor for property C09 - interpreter totality (DESIGN.md §6 C09).
+//!
+//! Events: the outcome of `VM::run` under the panic oracle - Ok / Err(TracedTexError) / panic(site)
+//! / process death (worker journal) - for token-level programs over the full installed vocabulary,
+//! each truncated at every token boundary and run in all four interaction modes; for Err: kind,
+//! presence of the matching source trace, and that rendering the error itself returns; after the
+//! run the H2 snapshot (no pending shutdown).
+//! Oracle: totality itself. Non-termination is cut by the step budget and not counted.
+
+use serde_json::json;
+use std::sync::OnceLock;
 use vcore::*;
+use vstate::texlang::error::Kind;
+use vstate::VmOptions;
 
 pub struct M;
 pub static MONITOR: M = M;
+
+fn vocabulary() -> &'static Vec<String> {
+    static V: OnceLock<Vec<String>> = OnceLock::new();
+    V.get_or_init(|| {
+        let mut v: Vec<String> = vstate::built_ins()
+            .keys()
+            .filter(|k| k.chars().all(|c| c.is_ascii_alphabetic()))
+            .map(|k| k.to_string())
+            .collect();
+        v.sort();
+        v
+    })
+}
+
+const NUMBERS: &[&str] = &[
+    "0", "1", "2", "-1", "-3", "7", "13", "15", "16", "17", "127", "128", "255", "256", "257",
+    "32767", "32768", "65535", "65536", "55295", "55296", "57343", "57344", "1114111", "1114112",
+    "1073741823", "1073741824", "2147483647", "2147483648", "-2147483647", "-2147483648",
+    "4294967296", "99999999999999999999", "\"7FFFFFFF", "\"80000000", "\"FFFFFFFF", "\"10FFFF",
+    "\"D800", "'17777777777", "'777", "`a", "`\\a", "`\\^^M", "`é", "`😀", "+-+5", "- - 3",
+    "16383.99999", "16384", "0.00001", ".5", "1,5", "32768.1",
+];
+
+const UNITS: &[&str] = &[
+    "pt", "pc", "in", "bp", "cm", "mm", "dd", "cc", "sp", "em", "ex", "fil", "fill", "filll",
+    "true pt", "truept", "P T", "plus", "minus", "by", "to", "=", "width",
+];
+
+const FILES: &[&str] = &[
+    "f", "f.tex", "g", "loop", "nofile", ">x", ":x", "a.b.c", "../x", "a", "b.mock", "invalid",
+    "invalid.mock", "é", "x y", "",
+];
+
+const CHARS: &[&str] = &[
+    "{", "}", "#", "$", "&", "^", "_", "~", "%", " ", "\n", "\n\n", "a", "b", "Z", "é", "😀", "^^M",
+    "^^@", "^^?", "\u{7f}", "\\", "\\ ", "\\\\", "#1", "#2", "##", "[", "]", "<", ">", "=", "-",
+    "\"", "'", "`", ".", ",", "\t", "\r",
+];
+
+const USER_MACROS: &[&str] = &["\\a", "\\b", "\\c", "\\undefinedcs"];
+
+const REGISTER_PRIMS: &[&str] = &["\\count", "\\dimen", "\\skip", "\\toks"];
+
+/// A generated program is a list of fragments; truncation happens at fragment boundaries.
+fn gen_fragment(rng: &mut Rng) -> String {
+    let voc = vocabulary();
+    let num = |rng: &mut Rng| NUMBERS[rng.usize_below(NUMBERS.len())].to_string();
+    match rng.below(100) {
+        0..=24 => format!("\\{} ", voc[rng.usize_below(voc.len())]),
+        25..=34 => num(rng),
+        35..=39 => UNITS[rng.usize_below(UNITS.len())].to_string(),
+        40..=49 => CHARS[rng.usize_below(CHARS.len())].to_string(),
+        50..=55 => USER_MACROS[rng.usize_below(USER_MACROS.len())].to_string(),
+        56..=58 => FILES[rng.usize_below(FILES.len())].to_string() + " ",
+        // structured fragments reach the deeper paths
+        59..=63 => format!(
+            "{}{}={}{} ",
+            rng.pick(REGISTER_PRIMS),
+            num(rng),
+            num(rng),
+            if rng.coin() { *rng.pick(UNITS) } else { "" }
+        ),
+        64..=66 => format!(
+            "\\{} {}{} by {}{} ",
+            rng.pick(&["advance", "multiply", "divide"]),
+            rng.pick(REGISTER_PRIMS),
+            num(rng),
+            num(rng),
+            if rng.coin() { *rng.pick(UNITS) } else { "" }
+        ),
+        67..=69 => format!(
+            "\\{} {}{}{} ",
+            rng.pick(&["ifnum", "ifodd", "ifcase", "ifeof"]),
+            num(rng),
+            rng.pick(&["<", "=", ">", " ", "z"]),
+            num(rng)
+        ),
+        70..=71 => format!("\\catcode {}={} ", num(rng), num(rng)),
+        72 => format!("\\mathcode {}={} ", num(rng), num(rng)),
+        73..=74 => format!(
+            "\\{}{}={} ",
+            rng.pick(&["chardef", "mathchardef", "countdef", "toksdef"]),
+            rng.pick(USER_MACROS),
+            num(rng)
+        ),
+        75..=77 => format!(
+            "\\the{}{} ",
+            rng.pick(&[
+                "\\count", "\\dimen", "\\skip", "\\toks", "\\catcode", "\\mathcode", "\\relax",
+                "\\a", "\\year", "\\endlinechar", "\\font", "\\nullfont", "\\textfont", "\\input",
+                "\\globaldefs", "a", "{", "\\the"
+            ]),
+            num(rng)
+        ),
+        78..=79 => format!(
+            "\\font{}={} ",
+            rng.pick(USER_MACROS),
+            rng.pick(FILES)
+        ),
+        80..=81 => format!("\\input {} ", rng.pick(FILES)),
+        82..=83 => format!("\\openin{}={} ", num(rng), rng.pick(FILES)),
+        84..=85 => format!("\\read{} to{} ", num(rng), rng.pick(USER_MACROS)),
+        86 => format!("\\closein{} ", num(rng)),
+        87..=89 => format!(
+            "\\{}{}{}{{{}}}",
+            rng.pick(&["def", "gdef", "global\\def", "long\\def", "outer\\def"]),
+            rng.pick(USER_MACROS),
+            rng.pick(&["", "#1", "#1#2", "#1.", "#2", "#1#", "a#1b", "#1#{", "#1#3"]),
+            rng.pick(&["", "#1", "x#1y#2", "##", "#3", "\\a", "\\a\\a", "{", "#", "\\b #1"])
+        ),
+        90..=91 => format!(
+            "\\let{}{}{} ",
+            rng.pick(USER_MACROS),
+            rng.pick(&["", "=", "= ", "=="]),
+            rng.pick(&["\\relax", "\\a", "a", "{", "}", "\\fi", "\\iftrue", "\\undefinedcs", "#", " "])
+        ),
+        92..=93 => format!(
+            "\\{} ",
+            rng.pick(&["errorstopmode", "scrollmode", "nonstopmode", "batchmode"])
+        ),
+        94 => format!(
+            "\\{}{}={} ",
+            rng.pick(&["newInt", "newIntArray"]),
+            rng.pick(USER_MACROS),
+            num(rng)
+        ),
+        95 => format!("\\tracingmacros={} ", num(rng)),
+        96 => format!("\\dumpFormat={} \\dumpValidate={} ", num(rng), num(rng)),
+        97 => format!("\\globaldefs={} ", num(rng)),
+        98 => format!("\\endlinechar={} ", num(rng)),
+        _ => format!(
+            "\\expandafter{}{}",
+            rng.pick(&["\\the", "\\noexpand", "\\expandafter", "\\a", "{", "}"]),
+            rng.pick(&["\\count1 ", "\\a", "\\fi", "\\else", "}", " "])
+        ),
+    }
+}
+
+const MODES: [&str; 4] = ["\\errorstopmode ", "\\scrollmode ", "\\nonstopmode ", "\\batchmode "];
+
+fn files() -> Vec<(String, String)> {
+    vec![
+        ("f.tex".into(), "F\\count1=5 \n\\endinput X\nY".into()),
+        ("g.tex".into(), "\\input f G".into()),
+        ("loop.tex".into(), "L\\input loop ".into()),
+        ("a.tex".into(), "{\\iftrue".into()),
+        ("é.tex".into(), "é\\undefinedcs".into()),
+    ]
+}
+
+#[derive(Debug)]
+enum RunResult {
+    Ok,
+    Err { title: String },
+    Budget,
+}
+
+fn run_once(source: &str, obs: &mut Obs, what: &str) -> Option<RunResult> {
+    let opts = VmOptions {
+        budget: 200_000,
+        files: files(),
+        terminal_lines: vec!["T1".into(), "{T2".into(), "}".into()],
+        ..Default::default()
+    };
+    let src = source.to_string();
+    let r = vcore::catch(move || {
+        let mut vm = vstate::new_vm(&opts);
+        vm.state.mon.call_tracing_hook = false;
+        if vm.push_source("c09.tex".to_string(), src).is_err() {
+            return (None, None, vm.verif_snapshot());
+        }
+        let r = vm.run::<vstate::VHandlers>();
+        let snap = vm.verif_snapshot();
+        match r {
+            Ok(()) => (Some(Ok(())), None, snap),
+            Err(e) => {
+                let kind = e.error.kind();
+                let has_trace = match &kind {
+                    Kind::Token(t) => e.token_traces.contains_key(t),
+                    Kind::EndOfInput => e.end_of_input_trace.is_some(),
+                    Kind::FailedPrecondition => true,
+                };
+                let kind_name = match &kind {
+                    Kind::Token(_) => "token",
+                    Kind::EndOfInput => "end-of-input",
+                    Kind::FailedPrecondition => "failed-precondition",
+                };
+                let stack_empty = e.stack_trace.is_empty();
+                let title = e.error.title();
+                // rendering must itself return
+                let rendered = format!("{e}");
+                (
+                    Some(Err((title, kind_name, has_trace, stack_empty, rendered.len()))),
+                    None::<()>,
+                    snap,
+                )
+            }
+        }
+    });
+    obs.count("runs");
+    match r {
+        Err(p) => {
+            if p.budget {
+                obs.count("budget_exceeded");
+                return Some(RunResult::Budget);
+            }
+            obs.count("panics_observed");
+            obs.repo_panic(&p, json!({"source": source, "what": what}));
+            None
+        }
+        Ok((None, _, _)) => {
+            obs.inconclusive("push_source failed");
+            None
+        }
+        Ok((Some(res), _, snap)) => {
+            if snap.shutdown_pending {
+                obs.violation(
+                    "shutdown-pending-after-run",
+                    json!({"source": source, "snapshot": format!("{snap:?}")}),
+                );
+            }
+            match res {
+                Ok(()) => {
+                    obs.count("outcome_ok");
+                    if snap.exec_stack_len != 0 {
+                        obs.violation(
+                            "execution-stack-unbalanced-after-ok",
+                            json!({"source": source, "snapshot": format!("{snap:?}")}),
+                        );
+                    }
+                    Some(RunResult::Ok)
+                }
+                Err((title, kind_name, has_trace, stack_empty, rendered_len)) => {
+                    obs.count("outcome_err");
+                    obs.count(&format!("err_kind:{kind_name}"));
+                    if !has_trace {
+                        obs.violation(
+                            format!("error-without-source-location:{kind_name}"),
+                            json!({"source": source, "title": title}),
+                        );
+                    }
+                    if kind_name == "failed-precondition" && stack_empty {
+                        obs.count("err_failed_precondition_with_empty_stack_trace");
+                    }
+                    if rendered_len == 0 {
+                        obs.violation(
+                            "error-renders-to-nothing",
+                            json!({"source": source, "title": title}),
+                        );
+                    }
+                    Some(RunResult::Err { title })
+                }
+            }
+        }
+    }
+}
+
+fn error_case_seeds() -> Vec<String> {
+    vstate::texlang_stdlib::ErrorCase::all_error_cases()
+        .into_iter()
+        .map(|c| c.source_code.to_string())
+        .collect()
+}
 
 impl Monitor for M {
     fn id(&self) -> &'static str {
         "C09"
     }
     fn rule(&self) -> String {
-        "not built yet".into()
+        "programs of 1-14 fragments drawn from: every installed primitive, user macros, braces and special characters, \
+         non-ASCII characters, numbers at and beyond every limit, units/keywords, file names, and structured fragments \
+         (register/arith/conditional/catcode/chardef/font/input/openin/read/def/let/mode/alloc statements with hostile \
+         operands); each program is run truncated at every fragment boundary, under each of the four interaction modes \
+         (mode set by the first fragment). seeds: the repo's 50 all_error_cases with hostile suffixes. A case is \
+         non-trivial if at least one of its runs ended in Ok or a rendered Err (not only budget cut-offs); distinct = \
+         distinct program text."
+            .into()
     }
     fn assumptions(&self) -> Vec<String> {
-        vec![]
+        vec![
+            "a run cut off by the logical step budget (2e5 hook steps) is not counted either way".into(),
+            "cases run on a 1 GiB stack: deep but finite recursion is not a crash here; the default-stack probe is a separate phase run in a subprocess".into(),
+            "terminal input comes from a 3-line MockTerminalIn; files from an in-memory file system".into(),
+            "an Err must carry the trace for its kind (token trace / end-of-input trace); FailedPrecondition errors are only counted".into(),
+        ]
     }
-    fn phases(&self, _tier: Tier) -> Vec<Phase> {
-        vec![]
+    fn phases(&self, tier: Tier) -> Vec<Phase> {
+        vec![
+            Phase::new("known", 24).batch(1),
+            Phase::new("stack", 30).batch(1),
+            Phase::new("seeds", 50 * tier.pick(4, 40)).batch(8),
+            Phase::new("random", tier.pick(30_000, 3_000_000)).batch(16),
+        ]
     }
-    fn run_case(&self, _phase: &str, _idx: u64, _rng: &mut Rng, _obs: &mut Obs) {}
+    fn floors(&self, _tier: Tier) -> Vec<(&'static str, u64)> {
+        vec![
+            ("runs", 100_000),
+            ("outcome_ok", 5_000),
+            ("outcome_err", 50_000),
+            ("err_kind:token", 10_000),
+            ("err_kind:end-of-input", 2_000),
+            ("err_kind:failed-precondition", 1_000),
+            ("mode:0", 500),
+            ("mode:1", 500),
+            ("mode:2", 500),
+            ("mode:3", 500),
+        ]
+    }
+    fn run_case(&self, phase: &str, idx: u64, rng: &mut Rng, obs: &mut Obs) {
+        match phase {
+            "known" => {
+                // fixed reproducers: each listed panic finding is exercised on every run so that
+                // its KNOWN-FINDING line appears while it is present
+                const R: &[&str] = &[
+                    "\\catcode 55296=3",
+                    "\\count1=-2147483647 \\advance\\count1 by -1 \\dimen0=\\count1 sp",
+                    "\\the\\relax",
+                    "é\\undefinedcs",
+                    "\\input >x",
+                    "\\batchmode\\read16 to\\a",
+                ];
+                if let Some(s) = R.get(idx as usize) {
+                    run_once(s, obs, "fixed reproducer");
+                }
+            }
+            "stack" => {
+                // Default-stack probe: long runs of tokens that expand to nothing (TeX handles
+                // them in constant stack). Run on a thread with the platform's default 8 MiB
+                // main-thread stack; an overflow kills this worker and the runner's journal
+                // names this case (signature process-death:SIGSEGV@stack).
+                const SIZES: [usize; 3] = [1_000, 100_000, 1_000_000];
+                let n = SIZES[idx as usize % 3];
+                let kind = idx as usize / 3;
+                let rep = |x: &str, n: usize| x.repeat(n);
+                let s = match kind {
+                    0 => format!("\\def\\a{{}}{} done", rep("\\a", n)),
+                    1 => format!("\\def\\a{{\\iftrue\\fi}}{} done", rep("\\a", n)),
+                    2 => format!("{}{} done", rep("{", n), rep("}", n)),
+                    3 => format!("{}{} done", rep("\\iftrue", n), rep("\\fi", n)),
+                    4 => format!("\\iffalse{}\\fi done", rep("\\iftrue\\else\\fi", n)),
+                    5 => format!("\\def\\a{{\\b}}\\def\\b{{}}{} done", rep("\\a", n)),
+                    6 => format!("\\def\\a#1{{}}\\a{{{}}} done", rep("x{y}", n / 4)),
+                    7 => format!("\\count1={}1 \\relax done", rep("0", n)),
+                    8 => format!("\\iffalse{}{}\\fi done", rep("\\iftrue", n), rep("\\fi", n)),
+                    _ => format!("{} done", rep("\\relax", n)),
+                };
+                obs.count(&format!("stack_probe_kind_{kind}"));
+                let h = std::thread::Builder::new()
+                    .stack_size(8 << 20)
+                    .spawn(move || {
+                        let opts = VmOptions {
+                            budget: 50_000_000,
+                            ..Default::default()
+                        };
+                        vcore::catch(move || {
+                            let (o, out, _vm) = vstate::run_program(&opts, &s);
+                            (o.is_ok(), out)
+                        })
+                    })
+                    .expect("spawn");
+                match h.join() {
+                    Ok(Ok((true, out))) if out.trim() == "done" => {
+                        obs.count("stack_probe_ok");
+                        obs.add("stack_probe_empty_expansions", n as u64);
+                    }
+                    Ok(Ok((ok, out))) => obs.violation(
+                        "stack-probe-wrong-result",
+                        json!({"n": n, "kind": kind, "ok": ok, "out_tail": out.chars().rev().take(20).collect::<String>()}),
+                    ),
+                    Ok(Err(p)) => obs.repo_panic(&p, json!({"n": n, "what": "stack probe"})),
+                    Err(_) => obs.inconclusive("stack probe thread died"),
+                }
+            }
+            "seeds" => {
+                let seeds = error_case_seeds();
+                let base = &seeds[(idx as usize) % seeds.len()];
+                let mode = MODES[rng.usize_below(4)];
+                let mut s = String::from(mode);
+                s.push_str(base);
+                for _ in 0..rng.range_usize(0, 3) {
+                    s.push(' ');
+                    s.push_str(&gen_fragment(rng));
+                }
+                let mut any = false;
+                if let Some(r) = run_once(&s, obs, "seed") {
+                    any |= !matches!(r, RunResult::Budget);
+                }
+                if any {
+                    obs.nontrivial(&s);
+                }
+            }
+            _ => {
+                let n = rng.range_usize(1, 14);
+                let frags: Vec<String> = (0..n).map(|_| gen_fragment(rng)).collect();
+                let mode_i = rng.usize_below(4);
+                obs.count(&format!("mode:{mode_i}"));
+                let mut any = false;
+                let mut outcomes = vec![];
+                // every truncation point (prefixes of the fragment list)
+                for cut in 1..=n {
+                    let mut s = String::from(MODES[mode_i]);
+                    for f in &frags[..cut] {
+                        s.push_str(f);
+                    }
+                    if let Some(r) = run_once(&s, obs, "random") {
+                        any |= !matches!(r, RunResult::Budget);
+                        if cut == n {
+                            outcomes.push(format!("{r:?}"));
+                        }
+                    }
+                }
+                if any {
+                    let full: String = frags.concat();
+                    obs.nontrivial(&(mode_i, &full));
+                    if obs.wants_sample() {
+                        obs.sample(json!({"mode": MODES[mode_i], "program": full, "truncations": n, "final_outcome": outcomes}));
+                    }
+                }
+            }
+        }
+    }
 }
